@@ -14,7 +14,10 @@ Inductive sty :=
 | SNone
 | SStr (s : str)
 | SMap (l : list (str * str))      (* css map: key, value as text (String / strconv.Itoa of an Int) *)
-| SCloErr.                          (* a closure style with one argument whose evaluation returns an error *)
+| SCloErr                           (* a closure style with one argument whose evaluation returns an error *)
+| STab (css : list (str * str)) (tf : list (str * sty)).
+    (* a map style with the key table: css entries as in SMap, and the table format map
+       (keys rNcM, rN, cN, all; values: styles for the cells of a list of lists) *)
 
 Inductive hval :=
 | HS (s : str)                      (* any scalar but Float, through ToString *)
@@ -67,7 +70,7 @@ Definition style_str (st : sty) : option str :=
   match st with
   | SNone | SCloErr => None
   | SStr s => Some s
-  | SMap l =>
+  | SMap l | STab l _ =>              (* the table entry is a map: not part of the style string *)
       match l with
       | [] => None
       | _ =>
@@ -81,7 +84,26 @@ Definition has_plain (st : sty) : bool :=
   match st with
   | SNone | SCloErr => false
   | SStr s => str_eqb s s_plainList
-  | SMap l => existsb (fun kv => str_eqb (fst kv) s_plainList) l
+  | SMap l | STab l _ => existsb (fun kv => str_eqb (fst kv) s_plainList) l
+  end.
+
+(* tableExporter.open: the table format of a style *)
+Definition tf_of (st : sty) : list (str * sty) :=
+  match st with STab _ tf => tf | _ => [] end.
+
+(* tableExporter.format: r<row>c<col>, then r<row>, then c<col>, then all *)
+Definition tf_lookup (tf : list (str * sty)) (row col : N) : option sty :=
+  match assoc (114 :: itoa row ++ 99 :: itoa col) tf with
+  | Some f => Some f
+  | None =>
+      match assoc (114 :: itoa row) tf with
+      | Some f => Some f
+      | None =>
+          match assoc (99 :: itoa col) tf with
+          | Some f => Some f
+          | None => assoc [97; 108; 108] tf
+          end
+      end
   end.
 
 Fixpoint index_of (s : str) (l : list str) (i : N) : option N :=
@@ -156,14 +178,20 @@ Fixpoint simple_rows (l : list hval) (i : N) (cls : list str) : res :=
       else Some (OOpen s_tr :: num ++ more_td ++ [OClose], cls)
   end.
 
+End Loops.
+
+Section TableLoops.
+Variable maxl : N.
+Variable cell : N -> N -> hval -> list str -> res.     (* toTD(format(row, col, item)) *)
+
 (* the cells of one table row *)
-Fixpoint table_cells (c : list hval) (col : N) (cls : list str) : res :=
+Fixpoint table_cells (row : N) (c : list hval) (col : N) (cls : list str) : res :=
   match c with
   | [] => Some ([], cls)
   | y :: c' =>
       if col <=? maxl then
-        bind (td y cls) (fun o cls1 =>
-        bind (table_cells c' (col + 1) cls1) (fun os cls2 =>
+        bind (cell row col y cls) (fun o cls1 =>
+        bind (table_cells row c' (col + 1) cls1) (fun os cls2 =>
         Some (o ++ os, cls2)))
       else Some (more_td, cls)
   end.
@@ -175,15 +203,15 @@ Fixpoint table_rows (l : list hval) (row : N) (cls : list str) : res :=
   | x :: r =>
       if row <=? maxl then
         bind (match x with
-              | HL cols => table_cells cols 1 cls
-              | _ => if 1 <=? maxl then td x cls else Some (more_td, cls)
+              | HL cols => table_cells row cols 1 cls
+              | _ => if 1 <=? maxl then cell row 1 x cls else Some (more_td, cls)
               end) (fun cells cls1 =>
         bind (table_rows r (row + 1) cls1) (fun os cls2 =>
         Some (OOpen s_tr :: cells ++ OClose :: os, cls2)))
       else Some (OOpen s_tr :: more_td ++ [OClose], cls)
   end.
 
-End Loops.
+End TableLoops.
 
 (* the elements of a plainList *)
 Section Plain.
@@ -225,6 +253,16 @@ Definition to_td_with (html : hval -> sty -> list str -> res) (d : hval) (cls : 
   | _ => bind (html d SNone cls) (fun o cls1 => Some (OOpen s_td :: o ++ [OClose], cls1))
   end.
 
+(* toTD(format(row, col, item)): with a format f for the cell, format returns Format{item, f, Cell: true} *)
+Definition cell_with (html : hval -> sty -> list str -> res) (tf : list (str * sty)) (row col : N)
+  (y : hval) (cls : list str) : res :=
+  match tf_lookup tf row col with
+  | Some f =>
+      let '(a, cls1) := style_attr inline f cls in
+      bind (html y SNone cls1) (fun o cls2 => Some (OOpen s_td :: a ++ o ++ [OClose], cls2))
+  | None => to_td_with html y cls
+  end.
+
 (* toHtml(v, style); the class list is threaded through *)
 Fixpoint to_html (v : hval) (st : sty) (cls : list str) {struct v} : res :=
   match st with
@@ -251,7 +289,7 @@ Fixpoint to_html (v : hval) (st : sty) (cls : list str) {struct v} : res :=
         | [] => Some ([], cls)
         | first :: _ =>
             let '(a, cls0) := style_attr inline st cls in
-            bind (if is_HL first then table_rows maxl to_td items 1 cls0      (* tableExporter *)
+            bind (if is_HL first then table_rows maxl (cell_with to_html (tf_of st)) items 1 cls0   (* tableExporter *)
                   else simple_rows maxl to_td items 1 cls0)                   (* simpleListExporter *)
                  (fun rows clsN => Some (OOpen s_table :: a ++ rows ++ [OClose], clsN))
         end
@@ -302,11 +340,13 @@ Definition hnames : node -> bool := names_in html_elems html_attrs.
 Definition eff_max (maxl : N) : N := if maxl <? 1 then 1 else maxl.
 
 (* all strings of the value (texts, keys, link targets, style strings, css keys and values) are legal XML characters *)
-Definition legal_sty (st : sty) : bool :=
+Fixpoint legal_sty (st : sty) : bool :=
   match st with
   | SNone | SCloErr => true
   | SStr s => legal s
   | SMap l => forallb (fun kv => legal (fst kv) && legal (snd kv)) l
+  | STab l tf => forallb (fun kv => legal (fst kv) && legal (snd kv)) l &&
+                 forallb (fun kv => legal_sty (snd kv)) tf
   end.
 
 Fixpoint legal_h (v : hval) : bool :=
@@ -346,11 +386,22 @@ Inductive fails : hval -> sty -> Prop :=
     nth_error items i = Some e -> N.of_nat i < maxl -> fails_td e -> fails (HL items) st
 | F_row : forall items first r x st, has_plain st = false ->
     nth_error items 0 = Some first -> is_HL first = true ->
-    nth_error items r = Some x -> N.of_nat r < maxl -> is_HL x = false -> fails_td x -> fails (HL items) st
+    nth_error items r = Some x -> N.of_nat r < maxl -> is_HL x = false ->
+    tf_lookup (tf_of st) (N.of_nat r + 1) 1 = None -> fails_td x -> fails (HL items) st
+| F_row_fmt : forall items first r x f st, has_plain st = false ->
+    nth_error items 0 = Some first -> is_HL first = true ->
+    nth_error items r = Some x -> N.of_nat r < maxl -> is_HL x = false ->
+    tf_lookup (tf_of st) (N.of_nat r + 1) 1 = Some f -> fails x SNone -> fails (HL items) st
 | F_cell : forall items first r cols c y st, has_plain st = false ->
     nth_error items 0 = Some first -> is_HL first = true ->
     nth_error items r = Some (HL cols) -> N.of_nat r < maxl ->
-    nth_error cols c = Some y -> N.of_nat c < maxl -> fails_td y -> fails (HL items) st
+    nth_error cols c = Some y -> N.of_nat c < maxl ->
+    tf_lookup (tf_of st) (N.of_nat r + 1) (N.of_nat c + 1) = None -> fails_td y -> fails (HL items) st
+| F_cell_fmt : forall items first r cols c y f st, has_plain st = false ->
+    nth_error items 0 = Some first -> is_HL first = true ->
+    nth_error items r = Some (HL cols) -> N.of_nat r < maxl ->
+    nth_error cols c = Some y -> N.of_nat c < maxl ->
+    tf_lookup (tf_of st) (N.of_nat r + 1) (N.of_nat c + 1) = Some f -> fails y SNone -> fails (HL items) st
 with fails_td : hval -> Prop :=
 | T_list : forall cs f inner, is_HL inner = true -> fails inner f -> fails_td (HFmt false cs f inner)
 | T_other : forall cell cs f inner, is_HL inner && negb cell = false -> fails inner SNone ->
